@@ -5,6 +5,8 @@ package caches
 // simulated runs). Nothing here is used by repo code.
 
 import (
+	"sort"
+
 	sync "github.com/tucats/ego/internal/verifsim/sync"
 )
 
@@ -28,6 +30,7 @@ func VerifSimShutdown() {
 		ids = append(ids, id)
 	}
 	cacheLock.Unlock()
+	sort.Ints(ids) // (map order is unseeded; sweepers of the purged classes run concurrently with this loop)
 	for _, id := range ids {
 		PurgeLocal(id)
 	}
